@@ -40,7 +40,7 @@ def grid_prec(cfg, s):
 
 class Tr:
     """One transition, as seen by the monitors."""
-    __slots__ = ("w", "a", "raised", "placed", "new_loans", "before", "after", "events", "cfg")
+    __slots__ = ("w", "a", "raised", "placed", "new_loans", "before", "after", "events", "cfg", "hist")
 
 
 def info_tuple(o):
@@ -114,6 +114,17 @@ def m_solvency(tr):
             bad.append(("negative-balance", f"{s}: available={av} hold={hold} borrowed={bor}"))
         if total != av + hold - bor:
             bad.append(("total-formula", f"{s}: total={total} != {av}+{hold}-{bor}"))
+    if tr.after.single_bal is not None:
+        for s, v in tr.after.single_bal.items():
+            av, hold, bor, total = v
+            if av < 0 or hold < 0 or bor < 0 or total != av + hold - bor:
+                bad.append(("negative-balance", f"get_balance({s}) = {v}"))
+            if v != tr.after.bal.get(s, (ZERO, ZERO, ZERO, ZERO)):
+                bad.append(("balance-single", f"get_balance({s}) = {v} but get_balances() says {tr.after.bal.get(s)}"))
+    if tr.after.loan_reads is not None:
+        open_listed = sorted(k for k in tr.after.loan_reads["filtered"][(None, True)])
+        if open_listed != sorted(loan_tuple(lo) for lo in tr.after.loans.values() if lo.is_open):
+            bad.append(("open-loans-listing", "get_loans(is_open=True) does not list exactly the open loans of get_loans()"))
     open_principal = collections.defaultdict(lambda: ZERO)
     for lo in tr.after.loans.values():
         if lo.is_open:
@@ -197,6 +208,22 @@ def m_lifecycle(tr):
         expp = sorted(oid for k, oid in enumerate(w.ids) if w.meta[k]["pair"] == pi and oid in is_open)
         if sorted(tr.after.open_by_pair[pi]) != expp:
             bad.append(("listing-pair", f"get_open_orders(pair {pi}) lists {len(tr.after.open_by_pair[pi])}, expected {len(expp)}"))
+    # every filter combination of get_orders() returns exactly the matching orders, each equal to get_orders()'s entry
+    if tr.after.filtered is not None:
+        allinfo = {oid: info_tuple(o) for oid, o in tr.after.orders.items()}
+        pair_of = {oid: w.meta[k]["pair"] for k, oid in enumerate(w.ids)}
+        for (pi, flag), got_list in tr.after.filtered.items():
+            expf = sorted(t for oid, t in allinfo.items() if (pi is None or pair_of.get(oid) == pi)
+                          and (flag is None or t[1] == flag))
+            if sorted(got_list) != expf:
+                bad.append(("listing-filter", f"get_orders(pair={pi}, is_open={flag}) returned {len(got_list)} orders, "
+                            f"{len(expf)} match"))
+        # entries of get_open_orders(): the order's own operation, amount and filled amount
+        for oo in tr.after.open_entries:
+            info = tr.after.orders.get(oo.id)
+            if info is not None and (oo.operation, oo.amount, oo.amount_filled) != (info.operation, info.amount, info.amount_filled):
+                bad.append(("open-order-entry", f"get_open_orders() reports {oo.operation} {oo.amount_filled}/{oo.amount} for an "
+                            f"order whose info says {info.operation} {info.amount_filled}/{info.amount}"))
     # per-order event streams are time ordered
     last = {}
     for ev in w.evq:
@@ -502,7 +529,10 @@ def expected_interest(w, lid, lo):
     pct = F(str(lend.get("pct", 10)))
     interest = pct / 100 * F(lo.borrowed_amount)
     period = lend.get("period", 10)
-    if period:
+    if lend.get("period_us"):
+        step_us = cfg.get("step_us") or 86400 * 10 ** 6
+        interest *= F((w.t - w.loan_meta[lid]["t"]) * step_us, lend["period_us"])
+    elif period:
         interest *= F(w.t - w.loan_meta[lid]["t"], period)
     if isym != lo.borrowed_symbol:
         pr = prices_of(w)
@@ -587,6 +617,47 @@ def m_loans(tr):
                                     f"interest {exp_b} {isym})"))
     if tr.a[0] == "repay" and tr.a[1] == -1 and not tr.raised:
         bad.append(("repay-unknown-succeeded", "repaying an unknown loan did not fail"))
+    # every way of reading loans tells the same story
+    if tr.after.loan_reads is not None:
+        alll = {lid: loan_tuple(lo) for lid, lo in tr.after.loans.items()}
+        for lid, t in tr.after.loan_reads["single"].items():
+            if t != alll[lid]:
+                bad.append(("loan-listing", f"get_loan() says {t[1:]}, get_loans() says {alll[lid][1:]}"))
+        for (sym, flag), got_list in tr.after.loan_reads["filtered"].items():
+            expf = sorted(t for t in alll.values() if (sym is None or t[2] == sym) and (flag is None or t[1] == flag))
+            if sorted(got_list) != expf:
+                bad.append(("loan-listing", f"get_loans(borrowed_symbol={sym}, is_open={flag}) returned {len(got_list)} loans, "
+                            f"{len(expf)} match"))
+    # an auto-repay order that traded and closed WITHOUT repaying anything: then no open loan in the symbol it acquired can be
+    # repayable right now (nothing changed since the attempt: decided by explicitly repaying on a rebuilt copy of this state)
+    if tr.hist is not None and tr.a[0] in ("bar", "bar=", "cancel") and not (tr.raised and tr.raised[0] == "crash"):
+        for k, oid in enumerate(w.ids):
+            ob, oa = tr.before.orders.get(oid), tr.after.orders.get(oid)
+            if ob is None or oa is None or not ob.is_open or oa.is_open or not w.meta[k]["ar"] or oa.amount_filled <= 0:
+                continue
+            if any(pl_.is_open and not tr.after.loans[lid_].is_open for lid_, pl_ in tr.before.loans.items()):
+                continue  # something was repaid in this step: the clause "as far as funds allow" is decided differentially
+            # ... and it must be the only order this step touched (orders matched later in the same bar move funds after
+            # the attempt was made)
+            if any(o2 != oid and (o2 not in tr.before.orders or info_tuple(tr.before.orders[o2]) != info_tuple(tr.after.orders[o2]))
+                   for o2 in tr.after.orders):
+                continue
+            pr_ = PAIRS[w.meta[k]["pair"]]
+            credit = pr_.base_symbol if w.meta[k]["side"] == "B" else pr_.quote_symbol
+            cands = [lid for lid, lo in tr.after.loans.items() if lo.is_open and lo.borrowed_symbol == credit]
+            # only loans that existed before the step (the closing order may itself have borrowed)
+            cands = [lid for lid in cands if lid in tr.before.loans]
+            for lid in cands:
+                from worlds import exch as _exch
+                w2 = _exch.build(cfg, tr.hist + [tr.a])
+                try:
+                    call(w2.e.repay_loan(lid))
+                except Exception:
+                    continue
+                bad.append(("auto-repay-skipped", f"{w.meta[k]['kind']} order {k} with auto_repay traded "
+                            f"({oa.amount_filled}) and closed during {tr.a[0]} without repaying anything, although the open "
+                            f"loan of {tr.after.loans[lid].borrowed_amount} {credit} can be repaid at that very moment"))
+                break
     return bad
 
 
